@@ -266,7 +266,7 @@ def run_shard(driver, scripts_file, trace_file, logf):
     return crashes
 
 
-def execute(driver, scripts, work, shards=12):
+def execute(driver, scripts, work, shards=24):
     shards = max(1, min(shards, len(scripts)))
     files = []
     for i in range(shards):
@@ -314,7 +314,7 @@ def monitor_one(trace, names, work, idx):
         if prop:
             f.write("PROPERTIES\n" + "\n".join(" " + n for n in prop) + "\n")
     nlines = sum(1 for _ in open(trace))
-    rc, out = tlc(d, "ObsTrace.tla", "Obs.cfg", workers=2, timeout=1200)
+    rc, out = tlc(d, "ObsTrace.tla", "Obs.cfg", workers=2, timeout=1200, heap="2g")
     st = tlc_stats(out)
     viol = []
     if "Model checking completed. No error has been found." in out:
@@ -470,12 +470,13 @@ def engine(tier):
             conf["drift_count"] = len(conf["drift"])
             conf["drift"] = conf["drift"][:20]
             it_jobs = []
+            it_pool = ThreadPoolExecutor(max_workers=3)      # (memory: at most three of these JVMs next to the monitors)
             for tag, (module, cfg) in it_sources.items():
                 mine = [s for s in scripts if s.get("gated") and s.get("itsrc") == tag and not s.get("slow")]
                 if mine and os.path.exists(os.path.join(work, cfg)):
                     feats = re.search(r"(?:MC|Sim)Features == \{([^}]*)\}", open(os.path.join(work, module)).read())
                     with_store = bool(feats and '"persist"' in feats.group(1))
-                    it_jobs.append((tag, pool.submit(impltrace.validate, work, tag, module, cfg, mine, ops, with_store, 3)))
+                    it_jobs.append((tag, it_pool.submit(impltrace.validate, work, tag, module, cfg, mine, ops, with_store, 3)))
             t2 = time.time()
             # one monitor pass with every formula: on a tree where everything holds the per-property checks need no further TLC run
             allnames = sorted({n for v in INVS.values() for n in v})
@@ -491,6 +492,7 @@ def engine(tier):
                 for sid in r["rejected"][:5]:
                     sys.stderr.write("CONFORM-REJECTED %s: no behaviour of Prunner.tla explains the recorded steps of script %s\n" % (tag, sid))
             conf["tlc_trace_validation"] = tlc_validation
+            it_pool.shutdown()
             pool.shutdown()
         with open(os.path.join(d, "scripts.ndjson"), "w") as f:
             for sc in scripts:
